@@ -1157,14 +1157,16 @@ class Model:
                         if not isinstance(start, _DefaultValue):
                             start_mx = ca.MX(start)
                             # If the state already has a non-default start
-                            # attribute we check for conflicts.
-                            if (
-                                start_mx.is_constant() != ca.MX(alias_start_mx).is_constant()
-                                or (
-                                    start_mx.is_symbolic()
-                                    and str(start_mx) != str(sign * alias_start_mx)
-                                )
-                                or start != alias_start_mx
+                            # attribute we check for conflicts. The two agree if
+                            # the canonical start equals the sign-adjusted alias
+                            # start, either structurally or as numeric constants.
+                            # Symbolic expressions that CasADi cannot prove equal
+                            # are reported as (possibly) conflicting.
+                            signed_alias_start_mx = alias_start_mx if sign == 1 else -alias_start_mx
+                            difference = start_mx - signed_alias_start_mx
+                            if not (
+                                ca.is_equal(start_mx, signed_alias_start_mx, 2)
+                                or (difference.is_constant() and ca.evalf(difference).is_zero())
                             ):
                                 logger.warning(
                                     "Current start attribute of canonical variable '{}' ({})"
